@@ -284,6 +284,42 @@ def _check_kinds(case):
     return True, "ok"
 
 
+def _check_wide_estimation(n):
+    """registers of n qubits (beyond what a state-vector simulator reaches) through a classical bit-flip runner: one result per task, in task order,
+    coefficient x eigenvalue for Z-terms on the lowest, highest and middle qubits; exact-scale check of tiny coefficients"""
+    import numpy as np
+    from orquestra.quantum.api.circuit_runner import BaseCircuitRunner
+    from orquestra.quantum.api.estimation import EstimationTask
+    from orquestra.quantum.circuits import Circuit, X
+    from orquestra.quantum.estimation import estimate_expectation_values_by_averaging
+    from orquestra.quantum.measurements import Measurements
+    from orquestra.quantum.operators import PauliSum, PauliTerm
+
+    class BitFlip(BaseCircuitRunner):
+        def _run_and_measure(self, circuit, n_samples):
+            bits = [0] * circuit.n_qubits
+            for op in circuit.operations:
+                bits[op.qubit_indices[0]] ^= 1
+            return Measurements([tuple(bits)] * n_samples)
+    rng = np.random.default_rng(n)
+    tasks, expected = [], []
+    for i in range(5):
+        ones = sorted({0, n - 1, n // 2, int(rng.integers(0, n)), int(rng.integers(0, n))} - ({0} if i % 2 else {n - 1}))
+        circ = Circuit([X(q) for q in ones], n_qubits=n)
+        supports = [{n - 1}, {0}, {0, n - 1}, {n // 2, n - 1}, {32 % n, n - 2}, set(range(max(0, n - 3), n))]
+        scale = (1.0, 1e-9, 1e6, 1.0, 1.0)[i]
+        op = PauliSum([PauliTerm({q: "Z" for q in S}, scale * (1.5 + k)) for k, S in enumerate(supports)] + [PauliTerm("I0", scale * 0.25)])
+        tasks.append(EstimationTask(op, circ, 3 + i))
+        expected.append([scale * (1.5 + k) * (-1) ** len(S & set(ones)) for k, S in enumerate(supports)] + [scale * 0.25])
+    out = estimate_expectation_values_by_averaging(BitFlip(), tasks)
+    if len(out) != len(tasks):
+        return False, f"{len(out)} results for {len(tasks)} tasks"
+    for i, (o, e) in enumerate(zip(out, expected)):
+        if len(o.values) != len(e) or not np.allclose(o.values, e, rtol=1e-12, atol=0):
+            return False, f"{n} qubits, task {i}: values {list(o.values)} expected {e}"
+    return True, "ok"
+
+
 def _check_bind_exact(n):
     """per-task binding (also when tasks SHARE one circuit object and differ only in their maps) and exact expectation values
     (for every kind of task: positive shots, zero shots, None, constant operators - the exact value never depends on the shot count)"""
@@ -317,6 +353,14 @@ def _check_bind_exact(n):
     vals = calculate_exact_expectation_values(SymbolicSimulator(), bound)
     if len(vals) != n:
         return False, "wrong number of exact values"
+    # the exact value is homogeneous in the operator: tiny and huge operators are evaluated to RELATIVE precision (no absolute snapping to zero)
+    for b in bound[:3]:
+        for scale in (1e-9, 1e-12, 1e7):
+            scaled = EstimationTask(PauliSum([t.copy(new_coefficient=t.coefficient * scale) for t in b.operator.terms]), b.circuit, b.number_of_shots)
+            v1 = calculate_exact_expectation_values(SymbolicSimulator(), [b])[0].values[0]
+            v2 = calculate_exact_expectation_values(SymbolicSimulator(), [scaled])[0].values[0]
+            if abs(v2 - scale * v1) > 1e-9 * abs(scale * v1) + 1e-300:
+                return False, f"exact expectation of {scale} x operator is {v2}, expected {scale} x {v1}"
     for i, (b, v) in enumerate(zip(bound, vals)):
         psi = np.array(b.circuit.to_unitary().tolist(), dtype=complex)[:, 0]
         mat = get_sparse_operator(b.operator, 2).toarray()
@@ -347,6 +391,9 @@ def build(tier, seed):
     obs.append(vprop.enum_ob("C15.kinds.enum", [C_AVG.key, C_SPLIT.key, C_NONMEAS.key], _cases_kinds(tier), _check_kinds,
                              "bounded: every ordering of measurable / constant (unsimplified) / zero-shot / None-shot tasks up to the length bound on basis states: "
                              "one result per task at its position, coefficients included, constants exact, zero-shot gives 0, tasks unmodified"))
+    obs.append(vprop.enum_ob("C15.wide.enum", [C_AVG.key, "orquestra.quantum.measurements.measurements:Measurements.get_expectation_values"], lambda: [3, 33, 40, 65, 72], _check_wide_estimation,
+                             "bounded: estimation by averaging on registers of 3 .. 72 qubits through a classical bit-flip runner: per-task values in task order for Z-terms on the lowest, "
+                             "highest and middle qubits, coefficient scales 1e-9 .. 1e6 to relative precision", exhaustive=False))
     obs.append(vprop.enum_ob("C15.bind_exact.enum", [C_BIND.key, C_EXACT.key], lambda: range(0, 7), _check_bind_exact,
                              "bounded: per-task binding (tasks sharing one circuit object, different maps) and exact expectation = quadratic form for positive / zero / None shots and constants"))
     return obs
